@@ -196,20 +196,19 @@ Definition bTableOf (sq : square) : option tbl :=
   fillTable (N.to_nat (bit (bitCountT mask))) 0 mask (nthN bMagics sq) bits (bit (64 - bits))
             (fun p => addBishopRays (zX sq) (zY sq) p false) (PositiveMap.empty N).
 
-Definition rTables : list (option tbl) := map rTableOf allSquares.
-Definition bTables : list (option tbl) := map bTableOf allSquares.
-
-(** BitBoard::rookAttacks / bishopAttacks as the code computes them: table lookup *)
-Definition rookAttacksMagic (sq : square) (occupied : N) : N :=
-  match nth (N.to_nat sq) rTables None with
-  | Some t => tget t (magicIndex (N.land occupied (rMasks sq)) (nthN rMagics sq) (nthN rBits sq))
+(** BitBoard::rookAttacks / bishopAttacks as the code computes them: table lookup.  (The table
+    of a square is recomputed at each call here; the OCaml driver caches [rTableOf sq].) *)
+Definition magicLookup (t : option tbl) (mask magic bits occupied : N) : N :=
+  match t with
+  | Some t => tget t (magicIndex (N.land occupied mask) magic bits)
   | None => unInit
   end.
-Definition bishopAttacksMagic (sq : square) (occupied : N) : N :=
-  match nth (N.to_nat sq) bTables None with
-  | Some t => tget t (magicIndex (N.land occupied (bMasks sq)) (nthN bMagics sq) (nthN bBits sq))
-  | None => unInit
-  end.
+Definition rookAttacksMagicWith (t : option tbl) (sq : square) (occupied : N) : N :=
+  magicLookup t (rMasks sq) (nthN rMagics sq) (nthN rBits sq) occupied.
+Definition bishopAttacksMagicWith (t : option tbl) (sq : square) (occupied : N) : N :=
+  magicLookup t (bMasks sq) (nthN bMagics sq) (nthN bBits sq) occupied.
+Definition rookAttacksMagic (sq : square) (occupied : N) : N := rookAttacksMagicWith (rTableOf sq) sq occupied.
+Definition bishopAttacksMagic (sq : square) (occupied : N) : N := bishopAttacksMagicWith (bTableOf sq) sq occupied.
 
 (** * squaresBetween table *)
 Local Open Scope Z_scope.
